@@ -29,7 +29,10 @@ CHECK = _C15(
         "the hierarchy after every stage are written with to_dict / to_yaml, read back, compared "
         "with the original by a harness-owned structural equality (names, types, payload fields, "
         "ordered successors, back edges, tables, assignments, nesting, kinds, headers, exitings) "
-        "and written again (chains of 1 (quick) or 3 (thorough) write-read rounds). distinct = "
+        "and written again (chains of 1 (quick) or 3 (thorough) write-read rounds); plus flat "
+        "arbitrary digraphs that are not closed CFGs (all 3-node digraphs of out-degree <= 2, "
+        "random ones up to 12 nodes: several or no entry blocks, dead cycles, unreachable "
+        "components), written and read back directly. distinct = "
         "hash of the input graph; non-trivial = the serialised hierarchy contains a region and a "
         "branching block"
     ),
@@ -62,4 +65,85 @@ def _plan(tier, seed):
     return out
 
 
-CHECK.plan = _plan
+
+
+# ---------------------------------------------------------------- flat digraphs
+# "Every graph the library can build": SCFG(graph) accepts any block dict, not
+# only closed CFGs.  Flat graphs with several entries, no entry at all (the
+# first block is a loop header), dead cycles and unreachable components are
+# written and read back directly (no stage is run on them).
+import itertools as _it
+import random as _random
+
+from .. import core as _core
+from ..attach import run_oracle as _run_oracle
+from .base import ShardAcc as _ShardAcc
+
+_plan1 = _plan
+_run1 = CHECK.run_shard
+
+
+def _plan2(tier, seed):
+    out = _plan1(tier, seed)
+    quick = tier == "quick"
+    out.append({"kind": "flat_exh", "n": 3, "tier": tier})
+    total = 1500 if quick else 60000
+    per = 250 if quick else 3000
+    for start in range(0, total, per):
+        out.append({"kind": "flat_rand", "seed": seed, "start": start, "count": per, "tier": tier})
+    return out
+
+
+def _flat_case(gd, acc, payload, chain):
+    from .. import drivers
+    from ..oracles.serial import check_roundtrip
+
+    ctx = _core.set_ctx(_core.Ctx(None))
+    scfg = drivers.make_scfg(gd, payload, drivers.how_for(gd))
+    ctx.hit("oracle.C15.roundtrip")
+    _run_oracle(ctx, "C15.roundtrip_flat", check_roundtrip, scfg, chain)
+    preds = {t for v in gd.values() for t in v}
+    entries = [k for k in gd if k not in preds]
+    acc.counters["flat_digraphs"] += 1
+    acc.counters["flat_digraphs.entries_%s" % min(len(entries), 2)] += 1
+    case = {"kind": "flatdigraph", "g": gd, "payload": payload}
+    acc.add_ctx(ctx, case, nontrivial_hash=_core.graph_hash(gd) if any(gd.values()) else None,
+                sample=(acc.evaluations % 997 == 0))
+
+
+def _run2(spec):
+    k = spec["kind"]
+    if k not in ("flat_exh", "flat_rand") and not (
+            k == "single" and spec["case"].get("kind") == "flatdigraph"):
+        return _run1(spec)
+    attach.install(CHECK.profile)
+    attach.ACTIVE.clear()
+    acc = _ShardAcc("C15")
+    chain = 1 if spec.get("tier", "quick") == "quick" else 3
+    if k == "single":
+        c = spec["case"]
+        _flat_case({a: tuple(b) for a, b in c["g"].items()}, acc, c.get("payload", "basic"), chain)
+    elif k == "flat_exh":
+        # every digraph on n nodes with out-degree <= 2 (ordered, no duplicate targets)
+        names = [str(i) for i in range(spec["n"])]
+        opts = [()] + [(a,) for a in names] + [p for p in _it.permutations(names, 2)]
+        for combo in _it.product(opts, repeat=len(names)):
+            _flat_case(dict(zip(names, combo)), acc, "basic", chain)
+        acc.counters["flat_exhaustive.n%d" % spec["n"]] += acc.evaluations
+    else:
+        for i in range(spec["start"], spec["start"] + spec["count"]):
+            rng = _random.Random(f"c15f/{spec['seed']}/{i}")
+            n = rng.randint(2, 12)
+            names = [str(j) for j in range(n)]
+            if rng.random() < 0.3:
+                rng.shuffle(names)
+            gd = {}
+            for nm in names:
+                d = rng.choice([0, 1, 1, 2, 2])
+                gd[nm] = tuple(rng.sample(names, min(d, n)))
+            _flat_case(gd, acc, rng.choice(["basic", "bytecode"]), chain)
+    return acc.result()
+
+
+CHECK.plan = _plan2
+CHECK.run_shard = _run2
